@@ -195,6 +195,14 @@ def add_dyndep(draw, g, f_dd_validation=True):
         edges.insert(0, chk)
         edges.insert(0, plain('ddv_hdr', ['ddv_check']))
         e['dd_ins'] = list(e.get('dd_ins', [])) + ['ddv_hdr']
+    # an implicit output that a dyndep file (present from the start, not produced by the build) adds is also named as an
+    # input in the manifest itself, behind the statement's first output: like a module file listed next to its object file
+    for d, info in sorted(g['dd_files'].items()):
+        if info['produced'] or draw(st.integers(0, 2)) != 2:
+            continue
+        for e in [x for x in edges if x.get('dd') == d and x.get('dd_outs')][:1]:
+            edges.append(dict(outs=['odc_' + d], iouts=[], phony=False, exp=[e['outs'][0], e['dd_outs'][0]], imp=[], oo=[], vals=[], restat=False,
+                              generator=False, deps='', hidden=[], variant='v0', pool='', rsp=None, dd=None, depfile_layout=0))
     for pe in producers:
         edges.insert(0, pe)
     for e in edges:
